@@ -190,6 +190,38 @@ def run_repeat(framing, kind, ka):
     return vio
 
 
+def run_after_lost_remainder(framing, ca, cb, ka):
+    """Request A (count ca) receives only the head of its answer, times out, its retransmission is answered in full.
+    Request B (count cb) is then answered by ONE conforming frame whose length happens to equal what A's fragment was
+    still missing.  B's frame is conforming: it must be accepted at once."""
+    world.reset()
+    La = 2 * ca + (7 if framing == 'rtu' else 9)
+    Lb = 2 * cb + (7 if framing == 'rtu' else 9)
+    p = La - Lb
+    if p < (5 if framing == 'rtu' else 9):
+        return None
+    state = dict(n=0)
+
+    def plan(k, req, now):
+        rq = wire.parse_request(req)
+        pl = bytes((3 * i + rq['count']) & 0xFF for i in range(2 * rq['count']))
+        f = wire.tcp_read_resp(req[:2], 0xF7, pl) if framing == 'tcp' else wire.rtu_read_resp(0xF7, pl)
+        state['n'] += 1
+        if state['n'] == 1:
+            return [(D0, ('data', f[:p]))]
+        return [(D0, ('data', f))]
+    peer = PlanPeer(plan)
+    loop = KLoop(peer)
+    pr = make_protocol('tcp' if framing == 'tcp' else 'udp', 1, 1, ka)
+    loop.run(_exec(pr.read_command(0x891C, ca), pr))
+    n0 = len(peer.sent)
+    st, res = loop.run(_exec(pr.read_command(0x9088, cb), pr))
+    if st == 'hang' or res[0] != 'ok' or len(peer.sent) - n0 != 1:
+        return [(f'conforming-frame-after-lost-remainder/{framing}/ka={int(ka)}',
+                 f'counts {ca} then {cb}: {res[:2]} after {len(peer.sent) - n0} transmissions')]
+    return []
+
+
 def k_cases(tier):
     counts = (1, 2, 61, 125)
     for framing in ('rtu', 'tcp', 'aa55'):
@@ -235,6 +267,16 @@ def run(tier, seed, rep):
                 nk += 1
                 for key, cause in run_repeat(framing, kind, ka):
                     rep.add(key + f'/ka={int(ka)}', key.split('/')[0], dict(part='R', framing=framing, kind=kind, ka=ka), dict(cause=cause))
+    for framing in ('rtu', 'tcp'):
+        for ca in (20, 61, 125):
+            for cb in (1, 3, 10, 60, 100):
+                for ka in (False, True):
+                    v = run_after_lost_remainder(framing, ca, cb, ka)
+                    if v is None:
+                        continue
+                    nk += 1
+                    for key, cause in v:
+                        rep.add(key, key.split('/')[0], dict(part='L', framing=framing, ca=ca, cb=cb, ka=ka), dict(cause=cause))
     cov = dict(evaluations=total + nk, distinct_nontrivial=nontriv,
                rule='conforming frames built by the independent codec: RTU/MBAP read answers for every count x every '
                     'uniform fill byte (x all unit addresses for counts 1 and 125, x trailing 0/1/2/7 bytes on RTU), '
@@ -255,6 +297,8 @@ def run(tier, seed, rep):
 
 
 def replay(r):
+    if r['part'] == 'L':
+        return dict(violations=run_after_lost_remainder(r['framing'], r['ca'], r['cb'], r['ka']) or [])
     if r['part'] == 'R':
         return dict(violations=run_repeat(r['framing'], r['kind'], r['ka']))
     if r['part'] == 'E':
